@@ -409,6 +409,53 @@ pub fn worker(args: &[String]) -> i32 {
   2
 }
 
+/// Re-run one diverging history in detail in both builds and name it: (key, detail).
+fn explain(tier: &str, ci: usize, ctl_name: &str, image: &str, evs: &[Ev], h: &[usize], i: u64, d: usize, cfg: &str, tmp: &str) -> (String, J, bool) {
+  let cold = cfg == "jit-cold";
+  let dj = format!("{}/c03_dj.json", tmp);
+  let dn = format!("{}/c03_dn.json", tmp);
+  let mk = |cold: bool, depth: usize, out: &str| {
+    vec!["C03".to_string(), "--worker".to_string(), "detail".to_string(), tier.to_string(), ci.to_string(), image.to_string(), if cold { "1".to_string() } else { "0".to_string() }, i.to_string(), depth.to_string(), out.to_string()]
+  };
+  let r1 = progrun::spawn_worker("GBMC_JIT_BIN", &mk(cold, d, &dj));
+  let r2 = progrun::spawn_worker("GBMC_NOJIT_BIN", &mk(false, d, &dn));
+  // Is the diverging event a block that was entered in the switchable bank and changed
+  // the mapped ROM bank while it ran (seen in the interpreter's own run)?  All such
+  // histories are one call site and get one key.
+  let mut self_switch = false;
+  let mut agree = false;
+  let obs = match (r1, r2) {
+    (Ok(_), Ok(_)) => match (progrun::parse_json_file(&dj), progrun::parse_json_file(&dn)) {
+      (Ok(a), Ok(b)) => match progrun::first_diff(&b, &a) {
+        Some((step, field, vn, vj)) => {
+          if let Some(rows) = b.as_arr() {
+            let k = step as usize;
+            if k < rows.len() && k < h.len() {
+              let in_window = matches!(evs[h[k]], Ev::Run(a) if a >= 0x4000 && a < 0x8000);
+              let before = if k == 0 { 1 } else { rows[k - 1].int_of("rom_bank") };
+              self_switch = in_window && rows[k].int_of("rom_bank") != before;
+            }
+          }
+          J::obj().set("first_diff_event", J::u(step)).set("field", J::s(field)).set("nojit", J::s(vn)).set(cfg, J::s(vj))
+        },
+        None => {
+          agree = true;
+          J::obj().set("note", J::s("digests differ, detailed runs agree"))
+        },
+      },
+      _ => J::obj().set("note", J::s("detail unreadable")),
+    },
+    (a, b) => J::obj().set("note", J::s(format!("detail run failed: {:?} {:?}", a.err(), b.err()))),
+  };
+  let hn = hist_name(evs, h);
+  let key = if self_switch {
+    format!("C03 ctl={} cfg={}-vs-nojit kind=block-in-switchable-bank-switched-its-own-bank", ctl_name, cfg)
+  } else {
+    format!("C03 ctl={} cfg={}-vs-nojit hist={}", ctl_name, cfg, hn)
+  };
+  (key, J::obj().set("case", J::obj().set("controller", J::s(ctl_name)).set("history", J::s(hn.as_str()))).set("observed", obs).set("diverging_block_entered_in_the_switchable_bank_and_changed_the_mapped_bank", J::Bool(self_switch)), !agree)
+}
+
 fn contains(hay: &[usize], needle: &[usize]) -> bool {
   !needle.is_empty() && hay.windows(needle.len()).any(|w| w == needle)
 }
@@ -498,30 +545,36 @@ pub fn run(tier: &str) -> i32 {
         if reported.iter().any(|r| contains(&h, r)) || reported.len() >= 8 {
           continue;
         }
-        let cold = cfg == "jit-cold";
-        let dj = format!("{}/c03_dj.json", tmp);
-        let dn = format!("{}/c03_dn.json", tmp);
-        let mk = |cold: bool, depth: usize, out: &str| {
-          vec!["C03".to_string(), "--worker".to_string(), "detail".to_string(), tier.to_string(), ci.to_string(), image.clone(), if cold { "1".to_string() } else { "0".to_string() }, i.to_string(), depth.to_string(), out.to_string()]
-        };
-        let r1 = progrun::spawn_worker("GBMC_JIT_BIN", &mk(cold, *d, &dj));
-        let r2 = progrun::spawn_worker("GBMC_NOJIT_BIN", &mk(false, *d, &dn));
-        let obs = match (r1, r2) {
-          (Ok(_), Ok(_)) => match (progrun::parse_json_file(&dj), progrun::parse_json_file(&dn)) {
-            (Ok(a), Ok(b)) => match progrun::first_diff(&b, &a) {
-              Some((step, field, vn, vj)) => J::obj().set("first_diff_event", J::u(step)).set("field", J::s(field)).set("nojit", J::s(vn)).set(cfg.as_str(), J::s(vj)),
-              None => J::obj().set("note", J::s("digests differ, detailed runs agree")),
-            },
-            _ => J::obj().set("note", J::s("detail unreadable")),
-          },
-          (a, b) => J::obj().set("note", J::s(format!("detail run failed: {:?} {:?}", a.err(), b.err()))),
-        };
-        let hn = hist_name(&evs, &h);
-        rep.add_violation(
-          &format!("C03 ctl={} cfg={}-vs-nojit hist={}", ctl.name, cfg, hn),
-          J::obj().set("case", J::obj().set("controller", J::s(ctl.name)).set("history", J::s(hn.as_str()))).set("observed", obs),
-        );
+        let (key, detail, _) = explain(tier, ci, ctl.name, &image, &evs, &h, i as u64, *d, cfg, &tmp);
+        rep.add_violation(&key, detail);
         reported.push(h);
+      }
+    }
+    // quick tier: the one four-event history that reaches the open finding of the thorough
+    // tier (known_findings.txt: a block in the switchable bank that switches its own bank) is
+    // run as a directed witness, so that both tiers show the finding
+    if tier == "quick" && ctl.name == "mbc1/128" {
+      let names = ["upper(1)", "run(3ffa)", "bank(02)", "run(4000)"];
+      let idx: Vec<usize> = names.iter().filter_map(|n| evs.iter().position(|e| ev_name(e) == *n)).collect();
+      if idx.len() == names.len() {
+        let n = evs.len() as u64;
+        let mut i = gen::count_sequences(evs.len(), 3);
+        let mut v = 0u64;
+        for k in idx.iter() {
+          v = v * n + *k as u64;
+        }
+        i += v;
+        debug_assert_eq!(gen::nth_sequence(evs.len(), 4, i), Some(idx.clone()));
+        for cfg in ["jit-warm", "jit-cold"] {
+          let (key, detail, diverged) = explain(tier, ci, ctl.name, &image, &evs, &idx, i, 4, cfg, &tmp);
+          histories += 1;
+          events += 4;
+          if diverged {
+            rep.add_violation(&key, detail);
+          }
+        }
+      } else {
+        rep.machinery_soft("C03: the witness history of the open finding cannot be spelled with this tier's events".to_string());
       }
     }
     let _ = std::fs::remove_file(&image);
